@@ -1,5 +1,6 @@
 import Logrange.Proofs.PipeWin
 import Logrange.Proofs.PipeWrite
+import Logrange.Proofs.PipeIter
 /-!
 # C02 — what the iterator models of C03/C16 (`Rd*`) may assume about the windows, proved from the pipeline model; and
 `Service.Write` as one event of the history model
@@ -70,5 +71,31 @@ theorem service_write_is_call (j : WriteLoop.J) (cidx : CIndex.St) (tss : List (
       (RangedIter.writeWith {} j cidx recs).2.1 = (step ⟨cidx, tss⟩ (.call pieces)).cidx ∧
       PipeWrite.JInv (RangedIter.writeWith {} j cidx recs).1 (step ⟨cidx, tss⟩ (.call pieces)).tss :=
   PipeWrite.writeWith_is_call j cidx tss recs hj hne
+
+
+/-- **scan_eq_abs_scan** — the former run-time link "stateful iterator = abstract scan" as a theorem: on ANY pipeline state (chunk
+index, records, range arbitrary) a fresh forward cursor of the executable iterator model — `ensureChkIt`/`getPosForward` with the
+statuses `rebuildChunkStatuses` computes once and caches, chunk-iterator clamping and its `cached` flag, `Get`/`Next`/`advanceChunk`
+(incl. the 008ef8e end position), `fiterator` skipping records out of range, every fuel bound — delivers exactly `PipeRead.absScan`
+(journal chunk ids are the dense ids × 10). Paging (`page ≠ 0`: cursor re-creation) stays a driver test (field `abs`). -/
+theorem scan_eq_abs_scan (s : RangedIter.St) (hf : PipeScan.Fresh s) (fuel : Nat) (hfuel : PipeScan.total s + 2 ≤ fuel) :
+    (RangedIter.scan s 0 fuel).2.toList = (PipeRead.absScan s).map (fun kp => (10 * (kp.1 + 1), kp.2)) :=
+  PipeScan.scan_eq_absScan s hf fuel hfuel
+
+/-- **range_eq_filter_iterator** — C02 end to end through the stateful iterator model: for every monotone history of Write calls
+and rebuilds (hypotheses of `range_eq_filter_pipeline`) and every range, what `RangedIter.scan` — the function the driver
+answers `r.scan` with and the harness compares with the real `JIterator`/`fiterator` — delivers from a fresh cursor is the
+list of (chunk id, index) of exactly the records with `rmin ≤ ts ≤ rmax`, in stored order. -/
+theorem range_eq_filter_iterator (evs : List Ev) (hs : (allTs evs).Pairwise (· ≤ ·))
+    (hb : ∀ t ∈ allTs evs, Points.minI64 ≤ t ∧ t ≤ RebuildHist.maxI64) (hok : HistOK {} evs)
+    (hsmall : ∀ l ∈ (run evs).tss, l.length ≤ 4294967295) (rmin rmax : Int) (fuel : Nat)
+    (hfuel : ((run evs).tss.map (·.length)).sum + 2 ≤ fuel) :
+    (RangedIter.scan (toSt (run evs) rmin rmax) 0 fuel).2.toList =
+      ((fullRead (run evs).tss 0).filter (fun kq => decide (rmin ≤ tsAt (run evs).tss kq ∧ tsAt (run evs).tss kq ≤ rmax))).map
+        (fun kp => (10 * (kp.1 + 1), kp.2)) :=
+  run_scan_eq_filter evs hs hb hok hsmall rmin rmax fuel hfuel
+
+example : (RangedIter.scan (toSt (run [.call [⟨true, [1, 2, 3]⟩, ⟨true, [4, 5]⟩], .rebuild 0 2, .call [⟨false, [6]⟩]]) 3 5) 0 8).2.toList =
+    [(10, 2), (20, 0), (20, 1)] := by decide
 
 end Logrange.Props.C02Win
